@@ -197,6 +197,22 @@ fn op(f: &[&str]) -> String {
             }
             out
         }
+        // front <line>: the splitter, the tokenizer and is_arithmetic only (no expansion, no planning): cheap enough for
+        // the directed exhaustive searches of round 9 (same text as the model's `front` op)
+        "front" => {
+            let line = dec(f[1]);
+            let segs = parser_line::line_to_cmds(&line);
+            let mut out = format!("segs={}", qlist(&segs));
+            for seg in segs {
+                if seg == ";" || seg == "&&" || seg == "||" {
+                    continue;
+                }
+                let li = parser_line::parse_line(&seg);
+                let arith = tools::is_arithmetic(&seg);
+                out.push_str(&format!("\tS tok={} arith={}", tokens_str(&li.tokens), if arith { 1 } else { 0 }));
+            }
+            out
+        }
         // alias <line> <name> <value> ...: the real expand_alias on the tokens of the line
         "alias" => {
             let mut sh = Shell::new();
